@@ -30,7 +30,7 @@ LEVEL = "proof"
 MODULE = "Sqfs.Props.C19"
 REQUIRED = ["Sqfs.C19." + t for t in (
     "desc_wellformed", "copy_wellformed", "copy_wellformed_all", "copy_balanced", "copy_fail_safe", "release_safe", "release_safe_either_order",
-    "no_leak", "copy_then_release_restores", "refcount_exact", "copy_equiv", "copy_same_buffer_sizes", "copy_independent", "copy_buffers_disjoint", "constructed_balanced", "grab_balanced",
+    "no_leak", "copy_then_release_restores", "refcount_invariant_reading", "refcount_exact", "exH_balanced", "exHX_balanced", "copy_equiv", "copy_same_buffer_sizes", "copy_independent", "copy_buffers_disjoint", "constructed_balanced", "grab_balanced",
     "copy_equiv_idTable", "copy_equiv_fragTable", "copy_fail_restores", "ops_release_safe", "copy_independent_mixed",
     "copy_equiv_dataReader", "copy_equiv_metaReader", "table_fill_is_adds", "envHeap_balanced",
     "rbtree_copy_equiv", "rbtree_built_wellformed", "copy_equiv_dirCache", "array_copy_equiv", "strtable_copy_equiv")]
